@@ -899,6 +899,7 @@ def run(ctx):
 
 
 SELFTESTS = [
+    (rule_no_size_limit, ["c10_limit_bad.cc"], ["c10_limit_good.cc"], "size-limit"),
     (rule_hint_name, ["c10_bad.cc"], ["c10_good.cc"], ".ddd"),
     (rule_gzip_only, ["c10_bad.cc"], ["c10_good.cc"], "default"),
     (rule_zlib_census, ["c10_bad.cc"], ["c10_good.cc"], "inflateValidate"),
